@@ -169,6 +169,13 @@ func (s Style) Underline(params ...interface{}) Style {
 func (s Style) Attributes(attrs AttrMask) Style {
 	s2 := s
 	s2.attrs = attrs
+	// AttrUnderline and the underline style are two views of the same
+	// thing, and the underline style is what gets drawn.
+	if attrs&AttrUnderline == 0 {
+		s2.ulStyle = UnderlineStyleNone
+	} else if s2.ulStyle == UnderlineStyleNone {
+		s2.ulStyle = UnderlineStyleSolid
+	}
 	return s2
 }
 
